@@ -85,6 +85,19 @@ def comparator_letters(ctx) -> T.Dict[str, T.Set[str]]:
     return out
 
 
+def to_pep440_rule(ctx, rule: str) -> None:
+    """version.to_pep440(v) is str(parse_version(v)): the comparator's canonical string, local label included."""
+    prog = ctx.prog
+    tp = prog.function("version.to_pep440")
+    ctx.visit(tp.fq)
+    rets = [n for n in walk_no_nested(tp.node) if isinstance(n, ast.Return)]
+    val = unparse(shapes.inline(tp, rets[0].value, prog)) if len(rets) == 1 and rets[0].value is not None else ""
+    ok = val in (f"str(parse_version({tp.params[0]}))", f"parse_version({tp.params[0]}).__str__()", f"f'{{parse_version({tp.params[0]})}}'")
+    ctx.check(rule, ok, "to_pep440(v) == str(parse_version(v))", "version.to_pep440 is not the comparator's canonical string",
+              f"`{val}`: e.g. `.public` / `.base_version` drop the local label or the pre-release segment, so distinct versions print alike and the output is not the canonical form",
+              loc=tp.loc(), witness={"version": "1.0+ubuntu.1"})
+
+
 def run(ctx) -> None:
     prog = ctx.prog
     ctx.rule("R1", "PEP440_TAG_BY_TAG[t] == comparator's normal form of t; every spelling accepted by the comparator; values are PEP 440 short forms")
@@ -242,10 +255,7 @@ def run(ctx) -> None:
     pd = shapes.single_def(pcf, "pep440_version")
     ctx.check("R5", pd is not None and unparse(pd) == "version.to_pep440(current_version)", "_parse_config: pep440_version = to_pep440(current_version)",
               "config._parse_config: pep440_version is not the PEP440 form of current_version", unparse(pd) if pd is not None else "", loc=pcf.loc())
-    tp = prog.function("version.to_pep440")
-    rets = [n for n in walk_no_nested(tp.node) if isinstance(n, ast.Return)]
-    ok = len(rets) == 1 and unparse(rets[0].value) == f"str(parse_version({tp.params[0]}))"
-    ctx.check("R5", ok, "to_pep440(v) == str(parse_version(v))", "version.to_pep440 is not the comparator's canonical string", unparse(rets[0]) if rets else "", loc=tp.loc())
+    to_pep440_rule(ctx, "R5")
 
 
 def _intersects(r: rl.R, d2: rl.DFA) -> T.Optional[str]:
